@@ -32,6 +32,22 @@ fn vf_find_file_by_stem() {
             println!("VF-FAIL directory with files {:?}, command `{}` :: resolved to {:?}, the file whose stem equals the command name is {:?} (C11) (C05)", files, cmd, got_name, want);
         }
     }
+    // a command file that is a symbolic link to a script kept elsewhere (shared between targets) is that target's command file;
+    // a link to a directory, or a dangling link, is not a file
+    for (kind, want) in [("file", true), ("dir", false), ("dangling", false)] {
+        checked += 1;
+        let td = crate::core::testing::new_testdir().unwrap();
+        let cmd_dir = td.path().join("cmd"); std::fs::create_dir_all(&cmd_dir).unwrap();
+        let shared = td.path().join("shared"); std::fs::create_dir_all(&shared).unwrap();
+        std::fs::write(shared.join("real.sh"), b"#!/bin/sh\n").unwrap();
+        let to = match kind { "file" => shared.join("real.sh"), "dir" => shared.clone(), _ => shared.join("gone.sh") };
+        std::os::unix::fs::symlink(&to, cmd_dir.join("build.sh")).unwrap();
+        let got = find_file_by_stem("build", &cmd_dir);
+        if got.is_some() != want {
+            bad += 1;
+            println!("VF-FAIL command directory whose `build.sh` is a symbolic link to a {} :: resolved to {:?}; a link to a regular file is the command file, a link to a directory or to nothing is not (C11) (C05) (C06)", kind, got);
+        }
+    }
     println!("VF-SUMMARY test=find_file_by_stem checked={} nontrivial={} bad={}", checked, checked - 2, bad);
 }
 
